@@ -248,7 +248,7 @@ def demoFS : FS :=
           (str "__init__.py", .file 98),
           (str "templates", .dir [(str "t.liquid", .file 4)])])]),
       (str "etc", .dir [(str "passwd", .file 100)])],
-    cwd := [str "srv"], maxLinks := 40 }
+    cwd := [str "srv"], maxLinks := 40, extraLinks := 1000 }
 
 def demoCfg (rej : Bool) : FSLConfig :=
   { search := [parse (str "/srv/templates")], ext := some (str ".liquid"), rejectSymlinks := rej }
@@ -340,10 +340,10 @@ theorem fsl_old_long_name_counterexample :
   cases this
 
 /-- the full statements in the same vocabulary, for the code as it is now -/
-theorem fsl_only_not_found' (cfg : FSLConfig) (fs : FS) (name : List Ch) (hext : ExtValid cfg.ext) :
+theorem fsl_raises_only_not_found (cfg : FSLConfig) (fs : FS) (name : List Ch) (hext : ExtValid cfg.ext) :
     OnlyNotFound (fslGetSource cfg fs name) := fun e h => fsl_only_not_found cfg fs name e hext h
 
-theorem pkg_only_not_found' (cfg : PkgConfig) (fs : FS) (name : List Ch) (hext : suffixOk cfg.ext = true) :
+theorem pkg_raises_only_not_found (cfg : PkgConfig) (fs : FS) (name : List Ch) (hext : suffixOk cfg.ext = true) :
     OnlyNotFound (pkgGetSource cfg fs name) := fun e h => pkg_only_not_found cfg fs name e hext h
 
 end LiquidVerif.C22
